@@ -22,6 +22,10 @@ fn task(i: usize, panics: &[u64]) -> usize {
 pub fn body(sc: Arc<Value>) {
     let pool = api::Pool::new();
     let use_broadcast = sc.get("use").and_then(|u| u.as_str()) == Some("broadcast");
+    // Like the benchmark loop: one result buffer, cleared and refilled by
+    // every broadcast.
+    let reuse = sc.get("reuse_vec").and_then(|u| u.as_bool()).unwrap_or(false);
+    let mut shared: Vec<Option<usize>> = Vec::new();
 
     for bc in sc["history"].as_array().cloned().unwrap_or_default() {
         let n = bc["n"].as_u64().unwrap_or(0) as usize;
@@ -40,8 +44,14 @@ pub fn body(sc: Arc<Value>) {
             });
             flags.iter().map(|f| f.load(Ordering::Relaxed)).collect()
         } else {
-            let mut v: Vec<Option<usize>> = Vec::new();
-            pool.par_extend(&mut v, n, |i| task(i, &panics));
+            let mut fresh: Vec<Option<usize>> = Vec::new();
+            let v: &mut Vec<Option<usize>> = if reuse {
+                shared.clear();
+                &mut shared
+            } else {
+                &mut fresh
+            };
+            pool.par_extend(v, n, |i| task(i, &panics));
             v.iter()
                 .enumerate()
                 .map(|(i, x)| match x {
